@@ -1,0 +1,26 @@
+//go:build verif
+// +build verif
+
+package node
+
+// Exports for the verification harness in /verif (data-model checks C08, C09, C10).
+// Add-only, compiled only with -tags verif.
+
+// VerifSMStore returns the store behind a kv state machine (nil for other state machines),
+// so that a driver can issue the read API the redis read commands use.
+func VerifSMStore(sm StateMachine) *KVStore {
+	if k, ok := sm.(*kvStoreSM); ok {
+		return k.store
+	}
+	return nil
+}
+
+// VerifSMParseScoreRange is the argument parser of ZRANGEBYSCORE / ZCOUNT / ZREMRANGEBYSCORE.
+func VerifSMParseScoreRange(left, right []byte) (float64, float64, error) {
+	return getScoreRange(left, right)
+}
+
+// VerifSMParseLexRange is the argument parser of ZRANGEBYLEX / ZLEXCOUNT / ZREMRANGEBYLEX.
+func VerifSMParseLexRange(left, right []byte) ([]byte, []byte, uint8, error) {
+	return getLexRange(left, right)
+}
